@@ -674,8 +674,11 @@ impl<'a> ParserState<'a> {
         let text = self.get_token_text(token);
         if text.len() > 2 && (text.starts_with("0x") || text.starts_with("0X")) {
             match u64::from_str_radix(&text[2..], 16) {
-                Ok(num_u64) => Ok((num_u64.as_(), true)),
-                Err(_) => Err(ParserError::malformed_number(self, context, text)),
+                // the hex value must fit into the bits of the target type, otherwise it would be truncated silently
+                Ok(num_u64) if size_of::<T>() >= 8 || (num_u64 >> (8 * size_of::<T>())) == 0 => {
+                    Ok((num_u64.as_(), true))
+                }
+                _ => Err(ParserError::malformed_number(self, context, text)),
             }
         } else {
             match text.parse() {
